@@ -10,7 +10,7 @@ MODULES = ["Helios.Props.C03", "Helios.Props.C12", "Helios.Props.Facts"]
 THEOREMS = ["Helios.Facts.lock_analysis_clean", "Helios.LB.recovers", "Helios.LB.recovers_by_time", "Helios.CB.breaker_gate_opens", "Helios.LB.cbGate_admits",
             "Helios.LB.rlGate_admits",
             "Helios.LB.conserved_run", "Helios.LB.gauges_zero_when_idle",
-            "Helios.Locks.lockorder_sound", "Helios.Facts.lock_order_ranked", "Helios.Facts.no_callback_under_lock",
+            "Helios.Locks.lockorder_sound", "Helios.Facts.lock_order_ranked", "Helios.Facts.no_callback_under_lock", "Helios.Facts.no_wait_under_lock",
             "Helios.Facts.timeouts_set"]
 FAULTS = ["refuse", "hang", "reset", "short", "garbage", "s500", "i503", "slow", "stall", "cau", "cad", "upg"]
 # client-visible outcome classes a fault may legitimately produce (regex), besides the answers
@@ -18,11 +18,12 @@ FAULTS = ["refuse", "hang", "reset", "short", "garbage", "s500", "i503", "slow",
 ALLOWED = {
     "ok": r"200", "refuse": r"502", "hang": r"502", "garbage": r"502", "s500": r"500", "i503": r"503", "upg": r"200",
     "reset": r"200-then-broken\(\d+\)", "short": r"200-then-broken\(\d+\)", "stall": r"200-then-broken\(\d+\)",
-    "slow": r"200", "cau": r"client-aborted-upload", "cad": r"client-aborted-download|200",
+    "slow": r"200", "cau": r"client-aborted-upload", "cad": r"client-aborted-download|200", "cah": r"client-abandoned",
     # the same through a client that accepts gzip: the plugin holds status and body until the handler is done, so a
     # response cut mid-body is a connection closed before any answer
     "okz": r"200", "shortz": r"200-then-broken\(\d+\)|closed-before-response", "resetz": r"200-then-broken\(\d+\)|closed-before-response",
 }
+KINDS = ["sse", "ssel", "wait", "grpc", "range", "keep", "poll"]
 GATES = r"429|503"
 BOUND_MS = 2900   # server/handler timeouts are 2 s, backend dial/read 1 s: generous slack for a loaded box
 
@@ -30,7 +31,10 @@ BOUND_MS = 2900   # server/handler timeouts are 2 s, backend dial/read 1 s: gene
 def gen_episode(rng, length, strategy, toggles):
     ep = ["ft new %s %d %d %d %d" % ((strategy,) + toggles)]
     for _ in range(length):
-        ep.append("ft req " + rng.choice(FAULTS))
+        f = rng.choice(FAULTS)
+        if f not in ("cau", "cah", "upg") and rng.random() < 0.3:
+            f += "+" + rng.choice(KINDS)        # the same fault on a request that describes itself (SSE, long poll, gRPC, ...)
+        ep.append("ft req " + f)
     ep.append("ft probe")
     return ep
 
@@ -59,7 +63,17 @@ def targeted(strategy):
     # (pooled buffers are per scheduler thread: the pattern is repeated so that a buffer handed back by a dead exchange is
     # drawn again by a later one whichever thread serves it)
     eps.append(["ft new %s 0 0 0 1" % strategy] + ["ft req shortz", "ft req okz", "ft req resetz", "ft req okz", "ft req okz"] * 8 + ["ft probe"])
+    # the end-to-end handler timeout (1 s) firing before the backend read timeout (3 s) — the shipped defaults have the
+    # two equal —: a silent backend is answered for by the handler deadline, and that answer is an error, not an empty 200
+    eps.append(["ft new %s 0 0 3 0" % strategy, "ft req hang", "ft req ok", "ft req stall", "ft req ok", "ft probe"])
+    eps.append(["ft new %s 0 0 3 1" % strategy, "ft req hang", "ft req ok", "ft probe"])
     return eps
+
+
+def kinds_episode(strategy, plugins):
+    """every kind of self-describing request (SSE, long poll, gRPC, range, keep-alive hints) against a backend that
+    stalls after its header, hangs before it, or trickles: the timeouts hold for all of them alike"""
+    return ["ft new %s 0 0 0 %d" % (strategy, plugins), "ft conc 7 stall+*,hang+*,slow+*", "ft probe"]
 
 
 def long_episode(strategy):
@@ -108,6 +122,7 @@ def oracle(ep, outs):
             if int(d.get("ms", "0")) > (BOUND_MS + 5000 if lines[0].split()[5] == "4" else BOUND_MS):
                 fails.append("a faulted request ended only after %s ms (timeouts <= 2 s): %s" % (d.get("ms"), line))
             cls = d.get("class", "")
+            w[2] = w[2].split("+")[0]
             if not re.fullmatch("(%s)|(%s)" % (ALLOWED.get(w[2], "200"), GATES), cls):
                 fails.append("unexpected client outcome %s for fault %s" % (cls, w[2]))
             if w[2] == "ok" and cls not in ("200", "429", "503"):
@@ -172,6 +187,7 @@ def check(ctx):
     for i, st in enumerate(STRATS if thorough else [STRATS[ctx.seed % 5]]):
         eps += targeted(st)
         eps.append(long_episode(st))
+        eps.append(kinds_episode(st, i % 2))
     eps = C.load_corpus(ID) + eps
     # episodes are independent and mostly wait: run them in parallel slices, one process each
     k = 8
